@@ -6,8 +6,11 @@ use crate::engine::Violation;
 use serde_json::Value;
 
 pub fn check(name: &str, case: &Value, v: &Violation) -> bool {
-    let _ = (case, v);
+    let _ = v;
     match name {
+        "union_branches_share_prop_with_different_inline_schema" => union_branches_share_prop(case),
+        "union_mixes_open_and_closed_variants" => union_mixes_open_closed(case),
+        "union_of_open_single_property_objects" => union_open_single_prop(case),
         _ => false,
     }
 }
@@ -27,4 +30,84 @@ pub fn any_schema_node(case: &Value, f: &mut dyn FnMut(&serde_json::Map<String, 
         }
     }
     case.get("history").map(|h| walk(h, f)).unwrap_or(false)
+}
+
+fn is_plain_scalar(v: &Value) -> bool {
+    let Some(o) = v.as_object() else { return true };
+    if o.contains_key("$ref") {
+        return true;
+    }
+    o.keys().all(|k| matches!(k.as_str(), "type" | "format" | "description" | "title"))
+        && matches!(o.get("type").and_then(|t| t.as_str()), Some("string") | Some("integer") | Some("number") | Some("boolean") | Some("null") | None)
+}
+
+/// KF-001: a oneOf/anyOf with two object branches that declare a property of
+/// the same name with different schemas, at least one of which produces a
+/// named type.
+fn union_branches_share_prop(case: &Value) -> bool {
+    any_schema_node(case, &mut |o| {
+        for key in ["oneOf", "anyOf"] {
+            let Some(bs) = o.get(key).and_then(|b| b.as_array()) else { continue };
+            for (i, a) in bs.iter().enumerate() {
+                for b in bs.iter().skip(i + 1) {
+                    let (Some(pa), Some(pb)) = (a.get("properties").and_then(|p| p.as_object()), b.get("properties").and_then(|p| p.as_object())) else { continue };
+                    for (k, sa) in pa {
+                        if let Some(sb) = pb.get(k) {
+                            if sa != sb && !(is_plain_scalar(sa) && is_plain_scalar(sb)) {
+                                return true;
+                            }
+                        }
+                    }
+                }
+            }
+        }
+        false
+    })
+}
+
+/// KF-002: a oneOf whose branches contain both a closed struct-like object
+/// (additionalProperties: false) and an open one, looking at the branch and
+/// at the payload one level below.
+fn union_mixes_open_closed(case: &Value) -> bool {
+    fn collect(v: &Value, depth: usize, closed: &mut bool, open: &mut bool) {
+        let Some(o) = v.as_object() else { return };
+        if let Some(ps) = o.get("properties").and_then(|p| p.as_object()) {
+            match o.get("additionalProperties") {
+                Some(Value::Bool(false)) => *closed = true,
+                _ => *open = true,
+            }
+            if depth < 1 {
+                for p in ps.values() {
+                    collect(p, depth + 1, closed, open);
+                }
+            }
+        }
+    }
+    any_schema_node(case, &mut |o| {
+        for key in ["oneOf", "anyOf"] {
+            let Some(bs) = o.get(key).and_then(|b| b.as_array()) else { continue };
+            let (mut c, mut op) = (false, false);
+            for b in bs {
+                collect(b, 0, &mut c, &mut op);
+            }
+            if c && op {
+                return true;
+            }
+        }
+        false
+    })
+}
+
+/// KF-003: a oneOf with an object branch that has exactly one property, which
+/// is required, and that does not forbid additional properties.
+fn union_open_single_prop(case: &Value) -> bool {
+    any_schema_node(case, &mut |o| {
+        let Some(bs) = o.get("oneOf").and_then(|b| b.as_array()) else { return false };
+        bs.iter().any(|b| {
+            let Some(bo) = b.as_object() else { return false };
+            let np = bo.get("properties").and_then(|p| p.as_object()).map(|p| p.len()).unwrap_or(0);
+            let nr = bo.get("required").and_then(|p| p.as_array()).map(|p| p.len()).unwrap_or(0);
+            np == 1 && nr == 1 && bo.get("additionalProperties") != Some(&Value::Bool(false))
+        })
+    })
 }
